@@ -1103,3 +1103,48 @@ Proof.
         destruct (located_corr fs "usr") as [K _]. cbv zeta in K. rewrite (K Hl). rewrite !orb_true_r. reflexivity. }
     rewrite Hun. destruct (tc_ok _); reflexivity.
 Qed.
+
+(** * Assembly: the correspondence record built from the model's own run *)
+Definition model_case (fs : fsys) (i : init_args) (ops : list op) : case :=
+  let c := mk fs i ops (Err EOther) [] in
+  mk fs i ops (model_out c) (model_mids c).
+
+Lemma mids_ok fs i c0 : start fs i = Ok c0 -> forall rest done c,
+  exec fs c0 done = Ok c ->
+  spec_mids fs i done rest (map snap_of (run_states fs c rest)) = true.
+Proof.
+  intros Hs. induction rest as [|o r IH]; intros done c H; [reflexivity|].
+  cbn [run_states]. destruct (step fs c o) as [c' out] eqn:Es.
+  assert (Hex : forall x, x <> OErr EOther -> (forall e, out <> OErr e) -> exec fs c0 (done ++ [o]) = Ok c').
+  { intros _ _ Hne. rewrite exec_app, H. cbn [exec]. rewrite Es. destruct out; try reflexivity.
+    exfalso. apply (Hne e). reflexivity. }
+  destruct out; try reflexivity;
+    (cbn [map spec_mids]; apply andb_true_iff; split;
+     [apply (prefix_ok fs i c0 _ c' Hs) | apply IH];
+     apply (Hex ONone); discriminate).
+Qed.
+
+Theorem whole_script_meets_spec fs i ops c0 :
+  start fs i = Ok c0 -> spec (model_case fs i ops) = true.
+Proof.
+  intros Hs. unfold spec, model_case, ops_run. cbn [c_fs c_init c_ops c_obs c_mids].
+  apply andb_true_iff. split.
+  - rewrite model_out_exec, Hs. unfold model_mids. cbn [c_fs c_init c_ops]. rewrite Hs.
+    destruct (exec fs c0 ops) as [cf|e] eqn:E.
+    + apply (prefix_ok fs i c0 ops cf Hs E).
+    + destruct (exec_fails fs ops c0 e E) as [done [o [rest [cd [E1 [E2 [E3 E4]]]]]]].
+      rewrite map_length, E4, E1.
+      replace (firstn (S (List.length done)) (done ++ o :: rest)) with (done ++ [o]).
+      * apply (fail_ok fs i c0 done cd o e Hs E2 E3).
+      * change (o :: rest) with ([o] ++ rest). rewrite app_assoc.
+        replace (S (List.length done)) with (List.length (done ++ [o]) + 0)
+          by (rewrite app_length; simpl; rewrite Nat.add_0_r; apply Nat.add_1_r).
+        rewrite firstn_app_2. simpl. rewrite app_nil_r. reflexivity.
+  - unfold model_mids. cbn [c_fs c_init c_ops]. rewrite Hs.
+    apply (mids_ok fs i c0 Hs ops [] c0). reflexivity.
+Qed.
+
+(** The constructor raised: the empty script is judged. *)
+Theorem constructor_failure_meets_spec fs i e :
+  start fs i = Err e -> spec_ok fs i [] "INVOKE_" (Err e) = true.
+Proof. exact (start_fail_ok fs i e). Qed.
